@@ -27,6 +27,8 @@ Entry(r, idx, t, forus) ==
   [ty |-> r.ty, nk |-> r.n.k, u |-> r.n.u, s |-> r.n.sk, rk |-> r.rk,
    ts |-> IF Has(r, "t") THEN r.t.sk ELSE "",
    us |-> {r.n.u},               \* owner spellings (letter case) under which the record is held
+   everUs |-> {r.n.u},           \* every spelling it ever arrived under
+   everFu |-> forus,             \* some arrival of it was in a packet for us (not undone by stop_browse)
    ifx |-> IF IsAddrTy(r.ty) THEN idx ELSE 0,
    srcif |-> idx,
    tk |-> IF Has(r, "t") THEN r.t.k ELSE "", tu |-> IF Has(r, "t") THEN r.t.u ELSE "",
@@ -51,7 +53,9 @@ Arrive(tab, r, idx, t, forus) ==
       (* "for us" is remembered if any arrival of the record was for us      *)
       fu == forus \/ (id \in DOMAIN tab /\ tab[id].forus /\ tab[id].exp > t /\ tab[id].vexp > t)
       old == IF id \in DOMAIN tab /\ tab[id].exp > t THEN tab[id].us ELSE {}
-  IN [x \in DOMAIN flushed \cup {id} |-> IF x = id THEN [Entry(r, idx, t, fu) EXCEPT !.us = @ \cup old] ELSE flushed[x]]
+      ever == IF id \in DOMAIN tab THEN tab[id].everUs ELSE {}
+      efu == forus \/ (id \in DOMAIN tab /\ tab[id].everFu)
+  IN [x \in DOMAIN flushed \cup {id} |-> IF x = id THEN [Entry(r, idx, t, fu) EXCEPT !.us = @ \cup old, !.everUs = @ \cup ever, !.everFu = efu] ELSE flushed[x]]
 
 RECURSIVE ArriveAll(_, _, _, _, _)
 ArriveAll(tab, rs, idx, t, forus) ==
